@@ -402,11 +402,12 @@ func timedCopy(clientAddr net.Addr, clientConn net.PacketConn, targetConn *natco
 	// pkt is used for in-place encryption of downstream UDP packets, with the layout
 	// [padding?][salt][address][body][tag][extra]
 	// Padding is only used if the address is IPv4.
-	pkt := make([]byte, serverUDPBufferSize)
-
 	saltSize := targetConn.cryptoKey.SaltSize()
 	// Leave enough room at the beginning of the packet for a max-length header (i.e. IPv6).
 	bodyStart := saltSize + maxAddrLen
+	// The body gets a full-size buffer after the header, so that a maximum-size
+	// datagram from the target is read (and reported) in full, not truncated.
+	pkt := make([]byte, bodyStart+serverUDPBufferSize)
 
 	expired := false
 	for {
